@@ -20,6 +20,7 @@ import (
 var tokenEQL = token.EQL
 var tokenLSS = token.LSS
 var tokenADD = token.ADD
+var tokenSUB = token.SUB
 var tokenQUO = token.QUO
 var tokenREM = token.REM
 
